@@ -15,8 +15,8 @@ CONSTANT Mode
 
 T == ndJsonDeserialize(IOEnv.TRACE)
 
-VARIABLES l, q, kind
-vars == <<l, q, kind>>
+VARIABLES l, q, kind, sig        \* sig[o]: address signature of the elements as last logged
+vars == <<l, q, kind, sig>>
 
 EmptyF == [x \in {} |-> 0]
 With(f, o, x) == [y \in (DOMAIN f) \cup {o} |-> IF y = o THEN x ELSE f[y]]
@@ -62,20 +62,22 @@ E == T[l]
 S == q[E.o]
 K == kind[E.o]
 
-Step(qn, kn) == Judge(E, qn, kn) /\ q' = Adopt(E, qn) /\ kind' = kn
+SigOf(e) == [o \in {e.objs[i].o : i \in 1..Len(e.objs)} |-> e.objs[CHOOSE i \in 1..Len(e.objs) : e.objs[i].o = o].ah]
+SigSame(e) == \A i \in 1..Len(e.objs) : e.objs[i].o \in DOMAIN sig => sig[e.objs[i].o] = e.objs[i].ah     \* elements stay where they were
+Step(qn, kn) == Judge(E, qn, kn) /\ q' = Adopt(E, qn) /\ kind' = kn /\ sig' = SigOf(E)
 Upd(s2) == Step(With(q, E.o, s2), kind)
 
 (* a failing call: one of the documented exceptions, every sequence exactly as before *)
 Fails(excs) == /\ E.exc \in excs
                /\ AllProjOK(E, q, kind) \/ Mode = "own"
                /\ OwnOK(E) \/ Mode # "own"
-               /\ UNCHANGED <<q, kind>>
+               /\ UNCHANGED <<q, kind, sig>>
 
 -----------------------------------------------------------------------------
-Init == l = 1 /\ q = EmptyF /\ kind = EmptyF
+Init == l = 1 /\ q = EmptyF /\ kind = EmptyF /\ sig = EmptyF
 
-Reset == IsEv("reset") /\ q' = EmptyF /\ kind' = EmptyF
-End == IsEv("end") /\ UNCHANGED <<q, kind>> /\ (Mode = "own" => (E.led = <<>> /\ E.lerr = 0))
+Reset == IsEv("reset") /\ q' = EmptyF /\ kind' = EmptyF /\ sig' = EmptyF
+End == IsEv("end") /\ UNCHANGED <<q, kind, sig>> /\ (Mode = "own" => (E.led = <<>> /\ E.lerr = 0))
 
 New == IsEv("new") /\ E.exc = "" /\ Step(With(q, E.o, E.init), With(kind, E.o, E.what))
 
